@@ -376,33 +376,66 @@ func realMain(id, tier, replay string, workers int, seed int64, cache, work stri
 	newViolations := 0
 	knownLines := []string{}
 	os.MkdirAll(filepath.Join(verifDir, "replay"), 0o755)
+	type pending struct {
+		sig   string
+		v     Violation
+		rp    string
+		repro int
+	}
+	var pend []*pending
 	for _, sig := range sigs {
 		v := bySig[sig][0]
 		if f := matchKnown(known, id, sig); f != nil {
 			knownLines = append(knownLines, fmt.Sprintf("KNOWN-FINDING: property=%s %s [sig: %s; %d case(s) this run]", id, f.What, sig, vioCounts[sig]))
 			continue
 		}
-		// write replay artefact
 		h := sha1.Sum([]byte(sig + string(v.Case)))
 		rp := filepath.Join(verifDir, "replay", fmt.Sprintf("%s-%x.json", id, h[:6]))
 		rb, _ := json.MarshalIndent(map[string]any{"property": id, "sig": sig, "detail": v.Detail, "case": v.Case, "tier": tier}, "", " ")
 		os.WriteFile(rp, rb, 0o644)
-		// re-execute 5x; a failure that does not reproduce is checker nondeterminism
-		repro := 0
-		for i := 0; i < 5; i++ {
-			_, err := runWorker(bin, wenv, "replay", id, tier, rp)
-			if ee, ok := err.(*exec.ExitError); ok && ee.ExitCode() == 1 {
-				repro++
+		pend = append(pend, &pending{sig: sig, v: v, rp: rp})
+	}
+	// re-execute 5x (first maxReplay signatures, in parallel); a failure that does
+	// not reproduce is checker nondeterminism, never reported as a violation
+	const maxReplay = 16
+	{
+		var rwg sync.WaitGroup
+		sem := make(chan struct{}, workers)
+		for i, pd := range pend {
+			if i >= maxReplay {
+				pd.repro = -1
+				continue
+			}
+			for k := 0; k < 5; k++ {
+				rwg.Add(1)
+				go func(pd *pending) {
+					defer rwg.Done()
+					sem <- struct{}{}
+					defer func() { <-sem }()
+					_, err := runWorker(bin, wenv, "replay", id, tier, pd.rp)
+					if ee, ok := err.(*exec.ExitError); ok && ee.ExitCode() == 1 {
+						mu.Lock()
+						pd.repro++
+						mu.Unlock()
+					}
+				}(pd)
 			}
 		}
-		if repro < 5 && !strings.Contains(sig, "[nondet-ok]") {
-			fmt.Fprintf(os.Stderr, "BROKEN: violation %q reproduced only %d/5 times from %s — checker nondeterminism, not reported as a violation\n%s\n", sig, repro, rp, v.Detail)
+		rwg.Wait()
+	}
+	for i, pd := range pend {
+		if pd.repro >= 0 && pd.repro < 5 {
+			fmt.Fprintf(os.Stderr, "BROKEN: violation %q reproduced only %d/5 times from %s — checker nondeterminism, not reported as a violation\n%s\n", pd.sig, pd.repro, pd.rp, pd.v.Detail)
 			exit = 2
 			continue
 		}
 		newViolations++
-		fmt.Printf("VIOLATION property=%s replay=%s\n", id, rp)
-		fmt.Printf("  signature: %s (%d case(s))\n  %s\n", sig, vioCounts[sig], strings.ReplaceAll(tail(v.Detail, 1500), "\n", "\n  "))
+		if i < 40 {
+			fmt.Printf("VIOLATION property=%s replay=%s\n", id, pd.rp)
+			fmt.Printf("  signature: %s (%d case(s))\n  %s\n", pd.sig, vioCounts[pd.sig], strings.ReplaceAll(tail(pd.v.Detail, 1500), "\n", "\n  "))
+		} else if i == 40 {
+			fmt.Printf("  ... %d more violation signatures (replay files written under /verif/replay)\n", len(pend)-40)
+		}
 		if exit == 0 {
 			exit = 1
 		}
